@@ -2,11 +2,13 @@ use vcommon::ctx::Ctx;
 
 pub mod c12;
 pub mod c15;
+pub mod c16;
 
 pub fn dispatch(prop: &str, ctx: Ctx) -> ! {
     match prop {
         "C12" => c12::run(ctx),
         "C15" => c15::run(ctx),
+        "C16" => c16::run(ctx),
         other => {
             eprintln!("harness error: unknown property {other:?}");
             std::process::exit(2)
